@@ -23,34 +23,54 @@ enum class validation_result : uint8_t {
 
 inline int pop_front_unichar(std::string_view& s) {
     // assuming that s.length() is > 0
+    //
+    // Returns -1 and consumes nothing if s does not start with a well-formed
+    // UTF-8 sequence (RFC 3629): invalid lead or continuation byte, truncated
+    // or overlong form, surrogate or a value greater than U+10FFFF.
 
     int n = s[0] & 0xF0;
     int ch = -1;
+    size_t len = 0;
 
     if ((n & 0x80) == 0) {
         ch = s[0];
-        s.remove_prefix(1);
+        len = 1;
     }
     else if ((n == 0xC0 || n == 0xD0) && s.size() > 1) {
-        ch = ((s[0] & 0x1F) << 6) | (s[1] & 0x3F);
-        s.remove_prefix(2);
+        if ((s[1] & 0xC0) == 0x80)
+            ch = ((s[0] & 0x1F) << 6) | (s[1] & 0x3F);
+        if (ch < 0x80)
+            ch = -1;
+        len = 2;
     }
     else if ((n == 0xE0) && s.size() > 2) {
-        ch = ((s[0] & 0x1F) << 12) | ((s[1] & 0x3F) << 6) | (s[2] & 0x3F);
-        s.remove_prefix(3);
+        if ((s[1] & 0xC0) == 0x80 && (s[2] & 0xC0) == 0x80)
+            ch = ((s[0] & 0x0F) << 12) | ((s[1] & 0x3F) << 6) | (s[2] & 0x3F);
+        if (ch < 0x800 || (ch >= 0xD800 && ch <= 0xDFFF))
+            ch = -1;
+        len = 3;
     }
-    else if ((n == 0xF0) && s.size() > 3) {
-        ch = ((s[0] & 0x1F) << 18) | ((s[1] & 0x3F) << 12) |
-            ((s[2] & 0x3F) << 6) | (s[3] & 0x3F);
-        s.remove_prefix(4);
+    else if ((n == 0xF0) && (s[0] & 0x08) == 0 && s.size() > 3) {
+        if (
+            (s[1] & 0xC0) == 0x80 && (s[2] & 0xC0) == 0x80 &&
+            (s[3] & 0xC0) == 0x80
+        )
+            ch = ((s[0] & 0x07) << 18) | ((s[1] & 0x3F) << 12) |
+                ((s[2] & 0x3F) << 6) | (s[3] & 0x3F);
+        if (ch < 0x10000 || ch > 0x10FFFF)
+            ch = -1;
+        len = 4;
     }
+
+    if (ch != -1)
+        s.remove_prefix(len);
 
     return ch;
 }
 
 inline validation_result validate_mqtt_utf8_char(int c) {
-    constexpr int fe_flag = 0xFE;
-    constexpr int ff_flag = 0xFF;
+    constexpr int non_char_mask = 0xFFFE; // U+xxFFFE and U+xxFFFF
+    constexpr int max_code_point = 0x10FFFF;
 
     constexpr int multi_lvl_wildcard = '#';
     constexpr int single_lvl_wildcard = '+';
@@ -62,8 +82,8 @@ inline validation_result validate_mqtt_utf8_char(int c) {
         (c < 0x007F || c > 0x009F) && // U+007F...0+009F control characters
         (c < 0xD800 || c > 0xDFFF) && // U+D800...U+DFFF surrogates
         (c < 0xFDD0 || c > 0xFDEF) && // U+FDD0...U+FDEF non-characters
-        (c & fe_flag) != fe_flag && // non-characters
-        (c & ff_flag) != ff_flag
+        (c & non_char_mask) != non_char_mask && // non-characters
+        c <= max_code_point
     )
         return validation_result::valid;
 
